@@ -364,11 +364,13 @@ package primitive
 // collections: both the writer loop and the length loop compute  2 + sum of the elements' lengths
 
 //@ func WriteStringList
-//@   prop C03
+//@   prop C03, C02
 //@   assigns wstream(dest)
 //@   let w0 = written(dest)
 //@   invariant #0 sum: written(dest) == w0 + 2 + fold(LengthOfString, list, rangeindex + 1)
+//@   invariant #0 count: written(dest) >= w0 + 2 && (len(list) <= 65535 ==> wbe2(dest, w0) == uint16(len(list)))
 //@   ensures len: result == nil ==> written(dest) == w0 + 2 + fold(LengthOfString, list, len(list))
+//@   ensures count: result == nil && len(list) <= 65535 ==> wbe2(dest, w0) == uint16(len(list))
 //@ func LengthOfStringList
 //@   prop C03
 //@   assigns nothing
@@ -390,9 +392,12 @@ package primitive
 // Map-typed notations: the writer and the length function both range over the map; their agreement needs a fold over
 // a map enumeration and is NOT yet under proof - both are tied to one abstract length by assumption (reported).
 //@ func WriteBytesMap
-//@   prop C03
+//@   prop C03, C02
 //@   assigns wstream(dest)
+//@   let w0 = written(dest)
 //@   assumes len: result == nil ==> written(dest) == old(written(dest)) + abstractLen("bytesmap", m)
+//@   invariant #0 count: written(dest) >= w0 + 2 && (len(m) <= 65535 ==> wbe2(dest, w0) == uint16(len(m)))
+//@   ensures count: result == nil && len(m) <= 65535 ==> wbe2(dest, w0) == uint16(len(m))
 //@ func LengthOfBytesMap
 //@   prop C03
 //@   assigns nothing
